@@ -158,7 +158,7 @@ theorem shift_negative_err (a b : BI) (hb : b.v < 0) :
     rw [if_neg (by omega)]; rfl
 
 /-- unary minus and bitwise not -/
-theorem eval_neg_not (env : EvalEnv) (l : Locals) (x : BI) :
+theorem eval_neg_not (env : EvalEnv) (l : ECtx) (x : BI) :
     eval env l (.un .Neg (.lit (.int x))) = .ok (.int ⟨-x.v, none⟩, l) ∧
     eval env l (.un .Not (.lit (.int x))) = .ok (.int ⟨-x.v - 1, none⟩, l) := by
   constructor <;> simp [eval, Value.shouldPropagate, unsized, intNot]
@@ -250,11 +250,11 @@ theorem concat_unsized_err (a b : BI) (h : a.size = none ∨ b.size = none) :
 
 /-! ## ill-typed operations are errors, never a made-up value -/
 
-theorem cond_nonbool_err (env : EvalEnv) (l : Locals) (b : BI) (t f : Expr) :
+theorem cond_nonbool_err (env : EvalEnv) (l : ECtx) (b : BI) (t f : Expr) :
     eval env l (.tern (.lit (.int b)) t f) = .error "invalid condition type" := by
   simp [eval, Value.shouldPropagate]
 
-theorem bool_plus_int_err (env : EvalEnv) (l : Locals) (p : Bool) (b : BI) :
+theorem bool_plus_int_err (env : EvalEnv) (l : ECtx) (p : Bool) (b : BI) :
     eval env l (.bin .Add (.lit (.bool p)) (.lit (.int b))) = .error "invalid argument types to operator" := by
   simp [eval, Value.shouldPropagate, Value.getBigint]
 
